@@ -14,7 +14,8 @@ RULE = ("pairs of quantities of one dimension (for + - == <) or any dimensions (
         "prefixes incl. mixed SI/IEC on information units; the SI value of every result must equal the operation on the "
         "operands' SI values, comparisons must agree with SI values away from ties, in both argument orders.  distinct "
         "= (operator, shape classes of both operands as written); non-trivial = the two operands are written in "
-        "different units")
+        "different units"
+        " A quarter of the operands are Decimals, some pairs are one object, and a section states a user unit, uses it, states it again with a corrected number (through Unit.equals or conversions.equate with numbers on both sides) and demands one physical answer whatever unit the other operand is written in.")
 ASSUMPTIONS = [
     "SI value = magnitude x unit-size interval from the declaration-log oracle, computed outside the library",
     "tolerance for + and - is relative to the larger operand (cancellation), 1e-5 per degree as for conversions; "
